@@ -176,6 +176,29 @@ def equation_ob(which, dx, r, B):
                         [f"jinns.loss._DynamicLoss:{cls}.equation"])
 
 
+def fisher_grid_r_ob(dx, B):
+    """Fisher-KPP on a separable network with a growth rate given on the grid (what a heterogeneous r(t, x) yields for a
+    separable network: one value per grid node, time axis first): node (i0, i1, ..) uses r[i0, i1, ..]"""
+    def build():
+        S = Sep("e", True, dx, 1, 1)
+        def fn(th, t, x, D_, rg, g_, Tmax):
+            return FisherKPP(Tmax=Tmax).evaluate(t, x, S.u, S.params(th, {"D": D_, "r": rg, "g": g_}))
+        def spec(th, t, x, D_, rg, g_, Tmax, wrong=False):
+            T = Tmax[()]
+            out = np.empty((B,) * (1 + dx) + (1,), dtype=object)
+            for idx, pt in grid_points(t, x, True, B, dx):
+                N = S.F(0, pt, th)
+                lap = sum((D(D(N, pt[1 + i]), pt[1 + i]) for i in range(dx)), P.ZERO)
+                rr = rg[idx] if not wrong else rg[idx[::-1]]
+                out[idx + (0,)] = D(N, pt[0]) + T * (-D_[()] * lap - N * (rr - g_[()] * N))
+            return out
+        return dict(fn=fn, spec=spec, canary=(lambda *z: spec(*z, wrong=True)) if B > 1 else None,
+                    inputs=[Inp("th", (1,)), Inp("t", (B, 1)), Inp("x", (B, dx)), Inp("D", ()), Inp("rg", (B,) * (1 + dx)), Inp("g", ()),
+                            Inp("Tmax", (), "pos")], timeout_ms=30000)
+    return EqObligation(f"C11/FisherKPP.equation[SPINN]/grid_entry_equals_pointwise[dx={dx},r=1,B={B},growth_rate_given_on_the_grid]", build,
+                        ["jinns.loss._DynamicLoss:FisherKPP.equation"])
+
+
 class _CorrelatedOU(OU_FPENonStatioLoss2D):
     """the exported Fokker-Planck base equation with a full (correlated) noise matrix: subclassing sigma_mat is the
     documented way to do it"""
@@ -409,6 +432,7 @@ def obligations(tier):
             for dx, facet in ((1, 1), (2, 0), (2, 3)):
                 obs.append(boundary_ob(cond, time, dx, 1, 2, facet, m=2, sel=jnp.s_[1:2]))
     obs.append(fpe_full_sigma_ob(1, 2))
+    obs += [fisher_grid_r_ob(1, 2), fisher_grid_r_ob(2, 2)]
     for dx in (1, 2):
         obs.append(ic_ob(dx, 1, 2, 1))
         obs.append(ic_ob(dx, 2, 2 if dx == 1 else 1, 2))
